@@ -12,19 +12,22 @@ import vplib
 import mem_gen
 
 C03_VFILES = ["Mem/Alloc.v", "Mem/AllocProofs.v", "Mem/PropList.v", "Mem/Owned.v", "Mem/PropListProofs.v",
-              "Mem/ParamSlots.v", "Mem/ParamProofs.v", "Mem/AddArrays.v", "Mem/AddArraysProofs.v", "Properties_C03.v"]
+              "Mem/ParamSlots.v", "Mem/ParamProofs.v", "Mem/DataAlloc.v", "Mem/DataProofs.v", "Mem/AddArrays.v", "Mem/AddArraysProofs.v",
+              "Properties_C03.v"]
 C12_VFILES = ["Mem/Alloc.v", "Mem/AllocProofs.v", "Mem/PropList.v", "Mem/Owned.v", "Mem/PropListProofs.v",
-              "Mem/ParamSlots.v", "Mem/ParamProofs.v", "Properties_C12.v"]
+              "Mem/ParamSlots.v", "Mem/ParamProofs.v", "Mem/DataAlloc.v", "Mem/DataProofs.v", "Properties_C12.v"]
 
 MODELLED = [
     "vnaproperty.c: list_check_allocation, list_alloc, list_subtree, list_insert, list_append, list_delete, scalar_alloc, "
     "vnaproperty_free (of a list of scalars), tail of vnaproperty_vset (coq/Mem/PropList.v)",
     "vnacal_parameter.c: _vnacal_alloc_parameter, _vnacal_free_parameter (scalar), _vnacal_teardown_parameter_collection; "
     "vnacal_delete_parameter look-up (coq/Mem/ParamSlots.v)",
+    "vnadata_alloc.c: vnadata_alloc, _vnadata_extend_p, _vnadata_extend_m, _vnadata_extend_f, the allocation part of vnadata_resize, "
+    "vnadata_free, for an object whose z0 mode is fixed (coq/Mem/DataAlloc.v)",
     "vnacal_new_add_common.c: declared lengths of m_cell_map, s_cell_map, port_connected, m_row_given, m_column_given, "
     "s_row_given, s_column_given against the loop bounds, calls without port map (coq/Mem/AddArrays.v)",
 ]
-MODELLED_C12 = MODELLED[:2]
+MODELLED_C12 = MODELLED[:3]
 
 T_TYPES = [0, 2, 4]      # T8, TE10, T16
 U_TYPES = [1, 3, 5]      # U8, UE10, U16
@@ -34,13 +37,15 @@ def gen_tie_script(rng, n, faults, obj):
     """ops on one list (obj "L") or one parameter table (obj "P"); indices from valid / boundary /
     invalid domains (the two objects are never mixed in one script: the interposer counts live
     blocks globally)"""
-    ops = ["-1 %s new" % obj]
+    ops = ["-1 %s new%s" % (obj[0], " 1" if obj == "D1" else " 0" if obj == "D" else "")]
+    perf = obj == "D1"
+    obj = obj[0]
     llen = 0
     pmax = 3
     for _ in range(n):
         k = -1
         if faults and rng.random() < 0.6:
-            k = rng.choice([0, 0, 1, 1, 2, 3])
+            k = rng.randrange(0, 14) if obj == "D" else rng.choice([0, 0, 1, 1, 2, 3])
         if obj == "L":
             y = rng.random()
             if y < 0.35:
@@ -60,6 +65,10 @@ def gen_tie_script(rng, n, faults, obj):
                 llen = max(llen - 1, 0)
             else:
                 ops.append("%d L get %d" % (k, rng.choice([0, llen - 1, llen, -1, 100])))
+        elif obj == "D":
+            r, c = rng.choice([(0, 0), (1, 1), (2, 2), (3, 3), (1, 3), (4, 2), (2, 2), (0, 2), (-1, 1), (1, -1), (-1, -1)])
+            f = rng.choice([0, 1, 2, 3, 5, 8, -1])
+            ops.append("%d D resize %d %d %d" % (k, r, c, f))
         else:
             if rng.random() < 0.6:
                 ops.append("%d P alloc" % k)
@@ -93,6 +102,7 @@ WITNESSES = {
     "plist_delete_orig_oob_refuted": ["-1 L new"] + ["-1 L append"] * 8 + ["-1 L delete 0", "-1 L free"],
     "plist_delete_orig_leak_refuted": ["-1 L new", "-1 L append", "-1 L append", "-1 L delete 0", "-1 L free"],
     "pslots_orig_refuted": ["-1 P new"] + ["-1 P alloc"] * 5 + ["-1 P delete 7", "0 P alloc", "-1 P alloc", "-1 P free"],
+    "vdata_extend_f_orig_refuted": ["-1 D new 1", "-1 D resize 0 0 2", "-1 D resize 2 2 2", "-1 D free"],
     "add_arrays_d14_refuted": ["-1 A 1 2 1 2 1 2 2"],
     "add_arrays_d50_refuted": ["-1 A 0 2 2 2 2 0 0"],
     "add_arrays_d48_refuted": ["-1 A 0 2 3 3 3 3 3"],
@@ -141,7 +151,7 @@ def run_tie(ctx, exe_unused, prop):
     first = None
     scripts = [("witness/" + k, v) for k, v in sorted(WITNESSES.items())]
     for i in range(nscripts):
-        scripts.append(("tie/%d" % i, gen_tie_script(ctx.rng, 40 if quick else 120, faults, "L" if i % 2 == 0 else "P")))
+        scripts.append(("tie/%d" % i, gen_tie_script(ctx.rng, 40 if quick else 120, faults, ["L", "P", "D", "D1"][i % 4])))
     if not faults:
         scripts.append(("tie/add", gen_add_cases(ctx.rng, 120 if quick else 1500)))
     for label, ops in scripts:
